@@ -218,3 +218,108 @@ Section Script.
     - contradiction.
   Qed.
 End Script.
+
+(* ------------------------------------------------------------------ RESP <-> Lua values *)
+Section RespInd.
+  Variable P : resp -> Prop.
+  Hypothesis Hs : forall s, P (RSimple_ s).
+  Hypothesis He : forall s, P (RError s).
+  Hypothesis Hi : forall z, P (RInt z).
+  Hypothesis Hb : forall o, P (RBulk o).
+  Hypothesis Hn : P (RArr None).
+  Hypothesis Ha : forall l, Forall P l -> P (RArr (Some l)).
+  Fixpoint resp_ind' (r : resp) : P r :=
+    match r with
+    | RSimple_ s => Hs s
+    | RError s => He s
+    | RInt z => Hi z
+    | RBulk o => Hb o
+    | RArr None => Hn
+    | RArr (Some l) =>
+        Ha l ((fix go (l : list resp) : Forall P l :=
+                 match l with
+                 | [] => Forall_nil P
+                 | x :: t => Forall_cons x (resp_ind' x) (go t)
+                 end) l)
+    end.
+End RespInd.
+
+Definition text_ok (s : bytes) : bool := bytes_eqb (lossy s) s && bytes_eqb (sanitize s) s.
+(* [a]: is a nil bulk allowed (inside arrays) *)
+Fixpoint inner_ok_with (a : bool) (r : resp) : bool :=
+  match r with
+  | RSimple_ s | RError s => text_ok s
+  | RInt _ => true
+  | RBulk (Some _) => true
+  | RBulk None => a
+  | RArr None => false
+  | RArr (Some l) =>
+      (fix all (l : list resp) : bool :=
+         match l with [] => true | x :: t => inner_ok_with a x && all t end) l
+  end.
+Definition conv_ok (r : resp) : bool :=
+  match r with RBulk None => true | _ => inner_ok_with false r end.
+Definition conv_ok_redis (r : resp) : bool := inner_ok_with true r.
+
+Definition go_arr : list lval -> list resp :=
+  fix go (l : list lval) : list resp :=
+    match l with
+    | [] => []
+    | LNil :: _ => []
+    | x :: t => lua_to_resp x :: go t
+    end.
+Lemma lua_to_resp_tab o e arr :
+  lua_to_resp (LTab o e arr) =
+    match get_str e with
+    | Some x => RError (sanitize x)
+    | None => match get_str o with
+              | Some s => RSimple_ (sanitize s)
+              | None => RArr (Some (go_arr arr))
+              end
+    end.
+Proof. reflexivity. Qed.
+Lemma go_arr_cons x t : x <> LNil -> go_arr (x :: t) = lua_to_resp x :: go_arr t.
+Proof. destruct x; try reflexivity. congruence. Qed.
+
+Lemma conv_with nil_as a :
+  (a = true -> lua_to_resp nil_as = RBulk None /\ nil_as <> LNil) ->
+  forall r, inner_ok_with a r = true ->
+            lua_to_resp (resp_to_lua_with nil_as r) = r /\ resp_to_lua_with nil_as r <> LNil.
+Proof.
+  intros Hnil. induction r as [s|s|z|o| |l IH] using resp_ind'; cbn [inner_ok_with resp_to_lua_with]; intros H.
+  - unfold text_ok in H. apply andb_true_iff in H as [H1 H2]. apply bytes_eqb_eq in H2.
+    split; [|discriminate]. rewrite lua_to_resp_tab. cbn [get_str]. rewrite H1. now rewrite H2.
+  - unfold text_ok in H. apply andb_true_iff in H as [H1 H2]. apply bytes_eqb_eq in H2.
+    split; [|discriminate]. rewrite lua_to_resp_tab. cbn [get_str]. rewrite H1. now rewrite H2.
+  - split; [reflexivity|discriminate].
+  - destruct o as [b|]; [split; [reflexivity|discriminate]|]. now apply Hnil.
+  - discriminate.
+  - split; [|discriminate]. rewrite lua_to_resp_tab. cbn [get_str]. do 2 f_equal.
+    induction IH as [|x t Hx _ IHt]; [reflexivity|].
+    apply andb_true_iff in H as [H1 H2]. destruct (Hx H1) as [E1 E2].
+    cbn [map]. rewrite (go_arr_cons _ _ E2), E1. f_equal. exact (IHt H2).
+Qed.
+
+Theorem conv_roundtrip r : conv_ok r = true -> lua_to_resp (resp_to_lua r) = r.
+Proof.
+  intros H. assert (G : forall r, inner_ok_with false r = true -> lua_to_resp (resp_to_lua r) = r).
+  { intros r0 H0. apply (conv_with LNil false); [discriminate|exact H0]. }
+  destruct r as [| | |[b|]|]; try (apply G; exact H); reflexivity.
+Qed.
+Theorem conv_roundtrip_redis r :
+  conv_ok_redis r = true -> lua_to_resp (resp_to_lua_redis r) = r.
+Proof.
+  intros H. apply (conv_with (LBool false) true); [|exact H].
+  intros _. split; [reflexivity|discriminate].
+Qed.
+(* the nil exception of the coded conversion: a nil inside an array ends the array, and a
+   nil array becomes a nil bulk; the first does not happen under Redis' nil -> false *)
+Theorem conv_nil_exception :
+  let v := RArr (Some [RBulk (Some [97%N]); RBulk None; RBulk (Some [99%N])]) in
+  lua_to_resp (resp_to_lua v) = RArr (Some [RBulk (Some [97%N])])
+  /\ lua_to_resp (resp_to_lua_redis v) = v
+  /\ lua_to_resp (resp_to_lua (RArr None)) = RBulk None.
+Proof. repeat split. Qed.
+Theorem nil_reaches_script_as_nil :
+  resp_to_lua (RBulk None) = LNil /\ resp_to_lua_redis (RBulk None) = LBool false.
+Proof. split; reflexivity. Qed.
